@@ -377,6 +377,7 @@ def identities(ctx, i):
     info = su.info(inplace=False)
     g = su.rotate(f)
     gs = snap(g)
+    check_rotated_field(ctx, su, f0, g, su.info(inplace=False, object="field"))
     g4 = su.rotate(f, k=su.k % 4)
     ctx.check("C12.identity.k_mod_4", not snap_diff(gs, snap(g4), ctol),
               differs=snap_diff(gs, snap(g4), ctol), object="field", **info)
